@@ -9,6 +9,7 @@ import PortusModel.Props.C10
 import PortusModel.Props.C13
 import PortusModel.Props.C14
 import PortusModel.Props.C03
+import PortusModel.Rt.Obs
 import PortusModel.Driver.Lang
 /-! `ORC <id> Cnn <input> <observed…>`: evaluate the property oracle `Cnn.check` on behaviour observed
 from the implementation. Answers `PASS` or `FAIL`. -/
@@ -247,6 +248,23 @@ def orcC03 (args : List String) : String :=
               passFail (C03.check (C03.expectedDefs (Lang.defInstrs (Lang.applyUpdates sc0 upd).named)) evs.length o)
             | _ => "PASS"
     | _, _, _ => "FAIL unparsable-observation"
+  | _ => "BADARG"
+
+def parseTrace (toks : List String) : Option (List Rt.Obs) :=
+  if toks = ["PANIC"] ∨ toks = ["ABORT"] then some [.res "PANIC"] else
+  (splitAt "|" toks).mapM Rt.parseObs
+
+def orcTrace (f : List Rt.Obs → Bool) (args : List String) : String :=
+  match parseTrace args with
+  | some t => passFail (f t)
+  | none => "FAIL unparsable-observation"
+
+def orcC05 (args : List String) : String :=
+  match splitAt "@@" args with
+  | [[n], tr] =>
+    match n.toNat? with
+    | some n => orcTrace (Rt.checkC05 n) tr
+    | none => "BADARG"
   | _ => "BADARG"
 
 end Portus.Driver
